@@ -75,11 +75,9 @@ theorem encEntries_length_le (field L : Nat) (hf : field * 8 + 2 < 128) (hL : L 
     rw [Nat.mul_add]
     omega
 
-/-- **Capacity, the part that holds.** Every listener set up to the fd limit
-    whose addresses are at most `L` bytes long fits the receive buffer, provided
-    `(L + 2) * MAX_FDS_OUT + 2 ≤ MAX_BYTES_OUT` (with the constants of the
-    current source: `L ≤ 18`). The unrestricted statement is false: see
-    `C10_capacity_counterexample`. -/
+/-- **Capacity, parametric form.** Every listener set up to the fd limit whose
+    addresses are at most `L` bytes long fits the receive buffer, provided
+    `(L + 2) * MAX_FDS_OUT + 2 ≤ MAX_BYTES_OUT`. -/
 theorem C10_capacity_partial (L : Nat) (l : Listeners)
     (hL : L < 128) (hfit : (L + 2) * Consts.scmMaxFdsOut + 2 ≤ Consts.scmMaxBytesOut)
     (hsmall : Consts.scmMaxBytesOut < 16384)
@@ -107,42 +105,62 @@ theorem C10_capacity_partial (L : Nat) (l : Listeners)
   simp only [encLen, encode_length]
   omega
 
-/-- with the extracted constants: addresses of at most 18 bytes always fit -/
-theorem C10_capacity_short_addresses (l : Listeners)
-    (hc : l.count ≤ Consts.scmMaxFdsOut) (ha : ∀ a ∈ l.addrs, a.length ≤ 18) :
+/-- **Capacity.** Every listener set of at most `MAX_FDS_OUT` listeners whose
+    address texts are at most `MAX_ADDRESS_LEN` bytes long — every
+    `SocketAddr::to_string()` is: `[ffff:…:ffff%4294967295]:65535` has 58 — fits
+    the `MAX_BYTES_OUT` receive buffer. The side conditions are facts about the
+    constants extracted from the source, re-checked on every run. (False before
+    the repair fd7301c of finding F18, when the buffer was 4096 bytes.) -/
+theorem C10_capacity (l : Listeners)
+    (hc : l.count ≤ Consts.scmMaxFdsOut) (ha : ∀ a ∈ l.addrs, a.length ≤ Consts.scmMaxAddressLen) :
     encLen l ≤ Consts.scmMaxBytesOut :=
-  C10_capacity_partial 18 l (by decide) (by decide) (by decide) hc ha
+  C10_capacity_partial Consts.scmMaxAddressLen l (by decide) (by decide) (by decide) hc ha
 
-example : ∃ l : Listeners, l.count = 2 ∧ (∀ a ∈ l.addrs, a.length ≤ 18) :=
-  ⟨{ tcp := [([49, 50, 55], 7), ([49, 50, 56], 8)] }, by decide⟩
+/-- the documented longest address text really is `MAX_ADDRESS_LEN` bytes:
+    "[ffff:ffff:ffff:ffff:ffff:ffff:ffff:ffff%4294967295]:65535" -/
+def addrLongest : Addr :=
+  [91, 102, 102, 102, 102, 58, 102, 102, 102, 102, 58, 102, 102, 102, 102, 58, 102, 102, 102, 102, 58,
+   102, 102, 102, 102, 58, 102, 102, 102, 102, 58, 102, 102, 102, 102, 58, 102, 102, 102, 102,
+   37, 52, 50, 57, 52, 57, 54, 55, 50, 57, 53, 93, 58, 54, 53, 53, 51, 53]
+
+example : addrLongest.length = Consts.scmMaxAddressLen := by decide
+
+/-- capacity and round trip together: such a set is handed over intact -/
+theorem C10_handover_total (parseOk : Addr → Bool) (l : Listeners)
+    (hc : l.count ≤ Consts.scmMaxFdsOut) (ha : ∀ a ∈ l.addrs, a.length ≤ Consts.scmMaxAddressLen)
+    (hp : ∀ a ∈ l.addrs, parseOk a = true) :
+    recv parseOk (send Sock.empty l).1 = (Sock.empty, .recvOk l) :=
+  (C10_manifest_roundtrip parseOk l (C10_capacity l hc ha) hc
+    (Nat.le_trans hc (by decide)) hp).2
+
+example : ∃ l : Listeners, l.count = 2 ∧ (∀ a ∈ l.addrs, a.length ≤ Consts.scmMaxAddressLen) :=
+  ⟨{ tcp := [([49, 50, 55], 7), (addrLongest, 8)] }, by decide⟩
 
 /-- "127.100.10.10:10000" — a 19-byte loopback address -/
 def addr19 : Addr := [49, 50, 55, 46, 49, 48, 48, 46, 49, 48, 46, 49, 48, 58, 49, 48, 48, 48, 48]
 
-/-- `MAX_FDS_OUT` TCP listeners on 19-byte addresses (F18) -/
+/-- `MAX_FDS_OUT` TCP listeners on 19-byte addresses: the witness of finding F18 -/
 def f18Witness : Listeners :=
   { tcp := (List.range Consts.scmMaxFdsOut).map fun i => (addr19, i) }
 
-/-- **Capacity, the excluded point (F18).** `∀ l, l.count ≤ MAX_FDS_OUT →
-    encLen l ≤ MAX_BYTES_OUT` is false for the constants in the source: 200
-    listeners with 19-byte addresses need 4202 bytes. A repair that sizes the
-    buffer from `MAX_FDS_OUT` makes this theorem fail to compile, which is the
-    signal to replace the pair by the unrestricted `C10_capacity`. -/
-theorem C10_capacity_counterexample :
-    ¬ (∀ l : Listeners, l.count ≤ Consts.scmMaxFdsOut → encLen l ≤ Consts.scmMaxBytesOut) := by
-  intro h
-  have h1 : f18Witness.count ≤ Consts.scmMaxFdsOut := by decide +kernel
-  have h2 : ¬ encLen f18Witness ≤ Consts.scmMaxBytesOut := by decide +kernel
-  exact h2 (h f18Witness h1)
+/-- regression of F18: the witness needs 4202 bytes — more than the 4096-byte
+    buffer the code had, within the buffer it has now — and is handed over intact -/
+theorem C10_f18_regression :
+    encLen f18Witness = 4202 ∧ ¬ encLen f18Witness ≤ 4096 ∧ encLen f18Witness ≤ Consts.scmMaxBytesOut ∧
+    (recv (fun _ => true) (send Sock.empty f18Witness).1).2 = .recvOk f18Witness := by
+  decide +kernel
 
-/-- what the excluded point does in the model (and, by the correspondence run,
-    in the code): the whole hand-over fails, no listener arrives, the received
-    descriptors are stranded and the rest of the manifest stays in the socket -/
-theorem C10_capacity_counterexample_outcome :
-    (recv (fun _ => true) (send Sock.empty f18Witness).1).2 = .recvErr .decode ∧
-    (recv (fun _ => true) (send Sock.empty f18Witness).1).1.leaked = Consts.scmMaxFdsOut ∧
-    (recv (fun _ => true) (send Sock.empty f18Witness).1).1.bytes.length =
-      encLen f18Witness - Consts.scmMaxBytesOut := by
+/-- the address-length hypothesis of `C10_capacity` is needed, and what happens
+    without it: 200 entries of 60 bytes (no `SocketAddr` prints that long) exceed
+    the buffer; the whole hand-over then fails with a decode error, no listener
+    arrives, the received descriptors are stranded in the receiver and the rest
+    of the manifest stays in the socket (this was F18 with real addresses) -/
+theorem C10_oversize_manifest_outcome :
+    let l : Listeners := { tcp := (List.range Consts.scmMaxFdsOut).map fun i => (addrLongest ++ [48, 48], i) }
+    Consts.scmMaxBytesOut < encLen l ∧
+    (recv (fun _ => true) (send Sock.empty l).1).2 = .recvErr .decode ∧
+    (recv (fun _ => true) (send Sock.empty l).1).1.leaked = Consts.scmMaxFdsOut ∧
+    (recv (fun _ => true) (send Sock.empty l).1).1.bytes.length = encLen l - Consts.scmMaxBytesOut := by
   decide +kernel
 
 /-! ### soft stop -/
